@@ -479,4 +479,66 @@ def rule_lease_per_connection(ctx):
     plumbing.rule_lease_wiring(ctx, 'C14.e')
 
 
-RULES = [('C17.a', rule_a), ('C17.b', rule_b), ('C17.c', rule_c), ('C17.d', rule_d), ('C17.e', rule_e), ('C17.f', rule_f), ('C17.b+C11.a+C11.g', rule_plumbing), ('C17.g', rule_g), ('C14.e', rule_lease_per_connection)]
+
+def rule_stop_tasks_reentrant(ctx):
+    """C17.h  The close sequence of the old connection and the reconnect listener's close run concurrently (on_close
+    may call reconnect() before the receiver has finished), so _stop_tasks must be safe against both itself and the
+    connect() that follows:
+      * no task awaits itself: the close sequence runs inside the receiver, and `await cancel_if_task_exists(<the
+        receiver task>)` from the receiver is a self-await - a RuntimeError that the helper swallows, but which leaves
+        the task marked as being awaited, so the listener's own await of that task fails at once and the listener goes
+        on to connect() while the old receiver is still in its close sequence.  Every cancel-and-await of the receiver
+        task that the receiver's close sequence can reach is guarded by `is not asyncio.current_task()`;
+      * no stale clear: a task attribute is set to None after an await only behind a test that it still holds the
+        task that was stopped (`self._x_task is task`) - otherwise the old receiver, finishing late, wipes the handle
+        of the task connect() has just started, and the next reconnect cannot stop that task."""
+    rep = ctx.report
+    slots = ctx.slots
+    n_cancel = n_clear = 0
+    for cls in (slots.RSocketClient, slots.RSocketServer):
+        f = cls.lookup('_stop_tasks')
+        if f is None:
+            raise AnalysisError('C17.h: _stop_tasks vanished')
+        ok_self, ok_clear = True, True
+        d_self = d_clear = ''
+        for p in ctx.paths(f, cls, inline_depth=2, no_inline={'cancel_if_task_exists'}):
+            evs = p.events
+            for e in evs:
+                if e.kind == 'call' and e.data.get('name') == 'cancel_if_task_exists' and e.data.get('args'):
+                    t = strip_epoch(e.data['args'][0].term)
+                    if t == ('attr', ('self',), '_receiver_task'):
+                        n_cancel += 1
+                        guards = [c for c in evs if c.kind == 'cond' and c.seq < e.seq and
+                                  'current_task' in repr(strip_epoch(c.data['key'])) and
+                                  '_receiver_task' in repr(strip_epoch(c.data['key']))]
+                        not_me = [c for c in guards if (strip_epoch(c.data['key'])[0] == 'is' and not c.data['value'])
+                                  or (strip_epoch(c.data['key'])[0] in ('isnot', 'is_not') and c.data['value'])]
+                        if not not_me:
+                            ok_self, d_self = False, ('the receiver task is cancelled and awaited without asking whether '
+                                                      'it is the current task: the close sequence, which runs inside the '
+                                                      'receiver, awaits itself')
+                if e.kind == 'store' and e.data['target'][0] == 'attr' and \
+                        strip_epoch(e.data['target'][1]) == ('self',) and e.data['target'][2].endswith('_task') and \
+                        e.data['value'].is_const() and e.data['value'].const is None:
+                    attr = e.data['target'][2]
+                    awaits = [a for a in evs if a.kind == 'await' and a.seq < e.seq]
+                    if not awaits:
+                        continue
+                    n_clear += 1
+                    recheck = [c for c in evs if c.kind == 'cond' and awaits[-1].seq < c.seq < e.seq and
+                               strip_epoch(c.data['key'])[0] == 'is' and c.data['value'] and
+                               repr(strip_epoch(c.data['key'])).count(attr) >= 2]
+                    if not recheck:
+                        ok_clear, d_clear = False, ('self.%s = None after an await without testing that it still holds '
+                                                    'the task that was stopped: a connect() that ran meanwhile loses '
+                                                    'the handle of its new task' % attr)
+        rep.add('C17.h', '%s._stop_tasks / the receiver task is not awaited from inside itself' % cls.name, f, ok_self,
+                d_self or 'every cancel_if_task_exists(<receiver task>) is behind `is not asyncio.current_task()`')
+        rep.add('C17.h', '%s._stop_tasks / a task attribute is cleared only if it still holds the stopped task' %
+                cls.name, f, ok_clear, d_clear or 'every clear after an await is behind `self._x_task is <stopped task>`')
+    rep.require('C17.h', 'cancel-and-await sites of the receiver task', n_cancel, 1)
+    rep.require('C17.h', 'task attributes cleared after an await', n_clear, 2)
+
+
+
+RULES = [('C17.a', rule_a), ('C17.b', rule_b), ('C17.c', rule_c), ('C17.d', rule_d), ('C17.e', rule_e), ('C17.f', rule_f), ('C17.b+C11.a+C11.g', rule_plumbing), ('C17.g', rule_g), ('C14.e', rule_lease_per_connection), ('C17.h', rule_stop_tasks_reentrant)]
